@@ -218,8 +218,9 @@ def _hull_ok(V):
         return False
 
 
-def gen_poly(rng, stream, near=None):
-    """one polytope spec. `near` = a point the shape should be placed around (to get overlaps)."""
+def gen_poly(rng, stream, near=None, scale=None):
+    """one polytope spec. `near` = a point the shape should be placed around (to get overlaps); `scale` fixes the
+    feature size (used for the pairs at the two ends of the declared size range)."""
     kind = rng.choice(["box", "box", "hull", "hull", "mesh"])
     for _ in range(50):
         if stream == "L":
@@ -239,19 +240,28 @@ def gen_poly(rng, stream, near=None):
                 return {"kind": "hull", "vertices": (V + t).tolist()}
             return _mesh_spec(V, _pose(R, t))
         else:
-            scale = 10 ** rng.uniform(-1.5, 1.5) if rng.random() < 0.3 else 10 ** rng.uniform(-0.3, 0.5)
+            if scale is None:
+                scale = 10 ** rng.uniform(-1.5, 1.5) if rng.random() < 0.3 else 10 ** rng.uniform(-0.3, 0.5)
             off = 10 ** rng.uniform(0, 3) * (1 if rng.random() < 0.15 else 0)
             base = np.array(near) if near is not None else np.array([rng.uniform(-1, 1) for _ in range(3)]) * off
             t = base + np.array([rng.gauss(0, 1) for _ in range(3)]) * scale * rng.choice([0.0, 0.2, 0.5, 0.9])
             R = random_rot(rng)
             if kind == "box":
                 size = [scale * 10 ** rng.uniform(-0.5, 0.5) for _ in range(3)]
+                if scale <= 0.02 or scale >= 50:     # domain-end pairs: stay inside [1e-2, 1e2]
+                    size = [min(100.0, max(0.01, scale * rng.uniform(1.0, 1.3))) for _ in range(3)]
                 return {"kind": "box", "pose": _pose(R, t).tolist(), "size": size}
             n = rng.choice([4, 5, 6, 8, 12, 20, 30, 40])
             V = np.array([[rng.gauss(0, 1) for _ in range(3)] for _ in range(n)])
             if rng.random() < 0.5:
                 V /= np.linalg.norm(V, axis=1)[:, None]       # all points extreme (sphere-like)
-            V *= 0.5 * scale * np.array([10 ** rng.uniform(-0.3, 0.3) for _ in range(3)])
+            if scale <= 0.02 or scale >= 50:         # domain-end pairs: extents stay inside [1e-2, 1e2]
+                V /= max(1.0, float(np.abs(V).max()))
+                V *= 0.5 * scale * np.array([rng.uniform(1.0, 1.25) for _ in range(3)])
+                if np.ptp(V, axis=0).min() < 0.01:
+                    continue
+            else:
+                V *= 0.5 * scale * np.array([10 ** rng.uniform(-0.3, 0.3) for _ in range(3)])
             if not _hull_ok(V):
                 continue
             if kind == "hull":
@@ -294,6 +304,13 @@ def gen_pair(rng, stream):
         a = gen_smooth(rng)
         b = gen_smooth(rng, near=centre(a)) if rng.random() < 0.6 else gen_poly(rng, "G", near=centre(a))
         return (a, b) if rng.random() < 0.5 else (b, a)
+    if stream == "G" and rng.random() < 0.2:
+        # both shapes at the same end of the declared size range (feature sizes ~1e-2 or ~1e2): absolute thresholds
+        # of the polytope bookkeeping (areas, squared lengths) act differently there than at unit scale
+        sc = rng.choice([0.01, 0.01, 0.012, 0.02, 50.0, 80.0])
+        a = gen_poly(rng, "G", scale=sc)
+        b = gen_poly(rng, "G", near=centre(a), scale=sc)
+        return a, b
     a = gen_poly(rng, stream)
     r = rng.random()
     if stream == "L" and r < 0.45:
